@@ -21,7 +21,6 @@ import (
 
 	"cosmossdk.io/store/prefix"
 	"github.com/cosmos/cosmos-sdk/runtime"
-	"github.com/cosmos/cosmos-sdk/types/query"
 
 	"github.com/circlefin/noble-cctp/x/cctp/types"
 	sdk "github.com/cosmos/cosmos-sdk/types"
@@ -58,7 +57,7 @@ func (k Keeper) UsedNonces(c context.Context, req *types.QueryAllUsedNoncesReque
 	adapter := runtime.KVStoreAdapter(k.storeService.OpenKVStore(ctx))
 	usedNonceStore := prefix.NewStore(adapter, types.KeyPrefix(types.UsedNonceKeyPrefix))
 
-	pageRes, err := query.Paginate(usedNonceStore, req.Pagination, func(key []byte, value []byte) error {
+	pageRes, err := paginate(usedNonceStore, req.Pagination, func(key []byte, value []byte) error {
 		var usedNonce types.Nonce
 		if err := k.cdc.Unmarshal(value, &usedNonce); err != nil {
 			return err
